@@ -257,13 +257,15 @@ var c06Families = []c06Family{
 		ctx.Eval(id)
 		return fw.Result{Verdict: fw.Held}
 	}},
-	{"duplicate-templates", func(tier string) int { return 400 }, func(ctx *fw.Ctx, k int) fw.Result {
+	{"duplicate-templates", func(tier string) int { return 1200 }, func(ctx *fw.Ctx, k int) fw.Result {
 		// the same template name defined in two files, in both orders; errors raised in either
 		bodyA := []string{"A{$x}{$x.q}", "A{$x.y.z}", "A{$x}{1 < 'a'}", "{call .u /}A{$x}{$ij.nope}"}[k%4]
 		bodyB := []string{"B", "B\n\n\n\n{$x.y}", "{foreach $i in $x}{$i}{/foreach}"}[(k/4)%3]
 		pad := strings.Repeat("\n", (k/12)%7) + strings.Repeat("// padding comment line\n", (k/84)%5*4)
-		fa := srcFile{"a.soy", "{namespace d}\n" + pad + "/** @param? x */\n{template .t}\n" + bodyA + "\n{/template}\n{template .u}U{/template}\n"}
-		fb := srcFile{"b.soy", "{namespace d}\n/** @param? x */\n{template .t}" + bodyB + "{/template}\n"}
+		// file names are only labels: they may be empty or equal
+		nameA, nameB := []string{"a.soy", "", "same.soy", "a.soy"}[(k/24)%4], []string{"b.soy", "", "same.soy", ""}[(k/24)%4]
+		fa := srcFile{nameA, "{namespace d}\n" + pad + "/** @param? x */\n{template .t}\n" + bodyA + "\n{/template}\n{template .u}U{/template}\n"}
+		fb := srcFile{nameB, "{namespace d}\n/** @param? x */\n{template .t}" + bodyB + "{/template}\n"}
 		files := []srcFile{fa, fb}
 		if (k/12)%2 == 1 {
 			files = []srcFile{fb, fa}
